@@ -97,6 +97,17 @@ func handleAllocateRequest(req Request, stunMsg *stun.Message) error { //nolint:
 		return buildAndSendErr(req.Conn, req.SrcAddr, errUnsupportedTransportProtocol, msg...)
 	}
 
+	// RFC 6062 Section 5.1: a TCP allocation can only be requested over TCP or
+	// TLS ("If the client connection transport is not TCP or TLS, the server
+	// MUST respond with a 400 (Bad Request) error"). A datagram listener has
+	// one read loop for all its clients, which a Connect would hold up for as
+	// long as the peer takes to answer.
+	if requestedTransport.Protocol == proto.ProtoTCP {
+		if _, isStream := req.Conn.(*proto.STUNConn); !isStream {
+			return buildAndSendErr(req.Conn, req.SrcAddr, errTCPAllocationOverDatagram, badRequestMsg...)
+		}
+	}
+
 	// 4. The request may contain a DONT-FRAGMENT attribute.  If it does,
 	//    but the server does not support sending UDP datagrams with the DF
 	//    bit set to 1 (see Section 12), then the server treats the DONT-
